@@ -798,7 +798,9 @@ class Differ:
             Optional[int], Optional[Any], Optional[int], Optional[Any]
         ]] = []
         for lhs_idx, lhs_ele in enumerate(lhs):
-            if not key_attr in lhs_ele:
+            if (not isinstance(lhs_ele, CommentedMap)
+                or not key_attr in lhs_ele
+            ):
                 # Impossible to match this LHS record to any RHS record
                 self.logger.debug(
                     "LHS record has no identity key, {}, for record at {}:"
@@ -831,7 +833,9 @@ class Differ:
                         data=rhs_ele,
                         prefix="Differ::synchronize_lods_by_key:  ")
 
-                if not use_key in rhs_ele:
+                if (not isinstance(rhs_ele, CommentedMap)
+                    or not use_key in rhs_ele
+                ):
                     # Impossible to match this RHS record to any LHS record
                     continue
 
